@@ -374,7 +374,8 @@ impl Scenario for Canonical {
     }
     fn generate(&self, rng: &mut Rng, tier: Tier, run: u64) -> Value {
         let huge = rng.chance(1);
-        let gigantic = rng.below(3500) == 0;
+        // one archive with more than 2^18 distinct contents per batch (run 0), a few more at random
+        let gigantic = run == 0 || rng.below(5000) == 0;
         let size = if gigantic { SizeClass::Gigantic } else if huge { SizeClass::Huge } else { draw_size(rng, 0) };
         let ic = if gigantic { *rng.pick(&[1u8, 2, 4]) } else { draw_ic(rng, huge) };
         let a = draw_archive(rng, size, ic);
